@@ -92,7 +92,8 @@ def _eligible(fn: ast.FunctionDef) -> bool:
                           ast.ClassDef, ast.Global, ast.Nonlocal,
                           ast.Lambda)):
             return False
-        if isinstance(n, ast.Return) and n is not body[-1]:
+        if isinstance(n, ast.Return) and n is not body[-1] and \
+                not _find_first_shape(fn):
             return False
         # a recursive helper is not inlined
         if isinstance(n, ast.Call):
@@ -102,6 +103,60 @@ def _eligible(fn: ast.FunctionDef) -> bool:
             if nm == fn.name:
                 return False
     return True
+
+
+def _find_first_shape(fn: ast.FunctionDef) -> bool:
+    """`for ...: ... return <v>` immediately followed by the trailing
+    `return <constant>`: every other return sits in that one loop (not in a
+    nested loop, not under try/with), the loop has no else clause."""
+    body = _body(fn)
+    last = body[-1].value if body and isinstance(body[-1], ast.Return) \
+        else None
+    if isinstance(last, ast.UnaryOp) and isinstance(last.op, ast.USub):
+        last = last.operand           # `return -1`
+    if len(body) < 2 or not isinstance(body[-1], ast.Return) or \
+            not isinstance(last, ast.Constant) or \
+            not isinstance(body[-2], (ast.For, ast.While)) or \
+            body[-2].orelse:
+        return False
+    loop = body[-2]
+    inner = [n for n in ast.walk(fn) if isinstance(n, ast.Return) and
+             n is not body[-1]]
+    if not inner or any(r.value is None for r in inner):
+        return False
+
+    def ok(stmts: List[ast.stmt]) -> bool:
+        for st in stmts:
+            if isinstance(st, (ast.For, ast.While, ast.Try, ast.With)):
+                if any(isinstance(x, ast.Return) for x in ast.walk(st)):
+                    return False
+            elif isinstance(st, ast.If):
+                if not ok(st.body) or not ok(st.orelse):
+                    return False
+        return True
+
+    in_loop = [n for n in ast.walk(loop) if isinstance(n, ast.Return)]
+    return len(in_loop) == len(inner) and ok(loop.body)
+
+
+class _ReturnToBreak(ast.NodeTransformer):
+    def __init__(self, name: str) -> None:
+        self.name = name
+
+    def _rewrite(self, stmts: List[ast.stmt]) -> List[ast.stmt]:
+        out: List[ast.stmt] = []
+        for st in stmts:
+            if isinstance(st, ast.Return):
+                out.append(ast.copy_location(ast.Assign(
+                    targets=[ast.Name(id=self.name, ctx=ast.Store())],
+                    value=st.value), st))
+                out.append(ast.copy_location(ast.Break(), st))
+            else:
+                if isinstance(st, ast.If):
+                    st.body = self._rewrite(st.body)
+                    st.orelse = self._rewrite(st.orelse)
+                out.append(st)
+        return out
 
 
 def _body(fn: ast.FunctionDef) -> List[ast.stmt]:
@@ -165,8 +220,8 @@ def _targets(call: ast.Call, fn: ast.FunctionDef,
 
 
 def _inline_at(st: ast.stmt, call: ast.Call, fn: ast.FunctionDef,
-               cls: Optional[ast.ClassDef], caller: ast.FunctionDef
-               ) -> Optional[List[ast.stmt]]:
+               cls: Optional[ast.ClassDef], caller: ast.FunctionDef,
+               force_result: bool = False) -> Optional[List[ast.stmt]]:
     params = [a.arg for a in fn.args.args]
     defaults: Dict[str, ast.AST] = {}
     for a, d in zip(reversed(fn.args.args), reversed(fn.args.defaults)):
@@ -243,6 +298,23 @@ def _inline_at(st: ast.stmt, call: ast.Call, fn: ast.FunctionDef,
         if new != loc:
             ren[loc] = new
     body = [copy.deepcopy(s) for s in _body(fn)]
+    if _find_first_shape(fn) and not isinstance(body[-1].value, type(None)) \
+            and any(isinstance(n, ast.Return) for n in ast.walk(body[-2])):
+        # single-exit form:  r = <constant>; loop with `r = v; break`;
+        # return r
+        if not (isinstance(st, ast.Assign) and
+                isinstance(st.targets[0], ast.Name)):
+            return None
+        res = st.targets[0].id
+        if res in _assigned(fn) or res in {a.arg for a in fn.args.args}:
+            return None
+        loop = body[-2]
+        loop.body = _ReturnToBreak(res)._rewrite(loop.body)
+        init = ast.copy_location(ast.Assign(
+            targets=[ast.Name(id=res, ctx=ast.Store())],
+            value=body[-1].value), st)
+        body = body[:-2] + [init, loop, ast.copy_location(ast.Return(
+            value=ast.Name(id=res, ctx=ast.Load())), st)]
     rw = _Rewrite(subst, ren)
     body = [rw.visit(s) for s in body]
     tail: List[ast.stmt] = []
@@ -253,7 +325,8 @@ def _inline_at(st: ast.stmt, call: ast.Call, fn: ast.FunctionDef,
     if ret_value is None:
         ret_value = ast.Constant(value=None)
     if isinstance(st, ast.Expr):
-        if not isinstance(ret_value, (ast.Constant, ast.Name)):
+        if force_result or \
+                not isinstance(ret_value, (ast.Constant, ast.Name)):
             tail = [ast.copy_location(ast.Expr(value=ret_value), st)]
     elif isinstance(st, ast.Assign):
         tail = [ast.copy_location(ast.Assign(
@@ -269,6 +342,60 @@ def _inline_at(st: ast.stmt, call: ast.Call, fn: ast.FunctionDef,
     return out or [ast.copy_location(ast.Pass(), st)]
 
 
+def _nested_call(st: ast.stmt, fn: ast.FunctionDef,
+                 cls: Optional[ast.ClassDef],
+                 caller_cls: Optional[ast.ClassDef]) -> Optional[ast.Call]:
+    """The single call of the helper inside a simple statement, when
+    everything the statement evaluates before it is free of effects: the
+    only other calls are those the helper call is (transitively) an
+    argument of, their functions are plain names / attribute chains /
+    methods of constants, and every other operand is a name, an attribute
+    chain or a constant."""
+    if not isinstance(st, (ast.Expr, ast.Assign, ast.Return)):
+        return None
+    root = st.value
+    if root is None:
+        return None
+    hits = [n for n in ast.walk(root) if isinstance(n, ast.Call) and
+            _targets(n, fn, cls, caller_cls)]
+    if len(hits) != 1 or hits[0] is root:
+        return None
+    hit = hits[0]
+    if not isinstance(fn.body[-1], ast.Return) or fn.body[-1].value is None:
+        return None
+
+    def on_path(n: ast.AST) -> bool:
+        return any(x is hit for x in ast.walk(n))
+
+    def pure(n: ast.AST) -> bool:
+        if n is hit:
+            return True
+        if isinstance(n, (ast.Constant, ast.Name)):
+            return True
+        if isinstance(n, ast.Attribute):
+            return pure(n.value)
+        if isinstance(n, ast.Call) and on_path(n) and not on_path(n.func):
+            f = n.func
+            okf = _simple(f) or (isinstance(f, ast.Attribute) and
+                                 isinstance(f.value, ast.Constant))
+            return okf and all(pure(a) for a in n.args) and \
+                all(pure(k.value) for k in n.keywords)
+        return False
+
+    return hit if pure(root) else None
+
+
+def _replace(root: ast.AST, old: ast.AST, new: ast.AST) -> None:
+    for n in ast.walk(root):
+        for field, val in ast.iter_fields(n):
+            if val is old:
+                setattr(n, field, new)
+            elif isinstance(val, list):
+                for j, x in enumerate(val):
+                    if x is old:
+                        val[j] = new
+
+
 def _inline_in_block(block: List[ast.stmt], fn: ast.FunctionDef,
                      cls: Optional[ast.ClassDef], caller: ast.FunctionDef,
                      caller_cls: Optional[ast.ClassDef]) -> int:
@@ -282,6 +409,21 @@ def _inline_in_block(block: List[ast.stmt], fn: ast.FunctionDef,
             new = _inline_at(st, call, fn, cls, caller)
             if new is not None:
                 block[i:i + 1] = new
+                i += len(new)
+                done += 1
+                continue
+        nested = _nested_call(st, fn, cls, caller_cls)
+        if nested is not None:
+            holder = ast.Expr(value=nested)
+            ast.copy_location(holder, st)
+            new = _inline_at(holder, nested, fn, cls, caller, True)
+            if new is not None and new and isinstance(new[-1], ast.Expr) \
+                    and new[-1] is not holder:
+                # body first, then the statement with the helper's result
+                # expression where the call stood
+                result = new[-1].value
+                _replace(st, nested, result)
+                block[i:i + 1] = new[:-1] + [st]
                 i += len(new)
                 done += 1
                 continue
